@@ -346,11 +346,17 @@ func main() {
 			shapes = append(shapes, shp{name: fmt.Sprintf("%s scaled by %g", b.name, k), s: sdf.ScaleUniform3D(b.s, k), size: b.size * k, ns: []int{8, 11}, class: "scaled-" + b.class})
 		}
 	}
-	for _, at := range []v3.Vec{{X: 1000, Y: -1000, Z: 37.3}} {
+	for _, at := range []v3.Vec{{X: 1000, Y: -1000, Z: 37.3}, {X: 3e6, Y: -5e6, Z: 7e6}} { // the second (round 9): coordinates 1e7 cells from the origin
 		for _, si := range []int{0, 2, 7} {
 			b := shapes[si]
-			shapes = append(shapes, shp{name: fmt.Sprintf("%s at %v", b.name, at), s: sdf.Transform3D(b.s, sdf.Translate3d(at)), size: b.size, ns: []int{8, 11}, class: "far-" + b.class, at: at})
+			shapes = append(shapes, shp{name: fmt.Sprintf("%s at %v", b.name, at), s: sdf.Transform3D(b.s, sdf.Translate3d(at)), size: b.size, ns: []int{8, 11, 24}, class: "far-" + b.class, at: at})
 		}
+	}
+	// every resolution 4..64 (thorough ..100) of the sphere and of a 2 x 1.4 x 1 box in a 1.13-padded volume, V2 default
+	// (round 9: a cell count that is truncated differently in two passes shows at a few resolutions only)
+	for n := 4; n <= vlib.Pick(c, 64, 100); n++ {
+		shapes = append(shapes, shp{name: "sphere r=1 in its 1.13-padded box", s: m3(sdf.Sphere3D(1)), size: 2.26, ns: []int{n}, class: "resolution-sweep"},
+			shp{name: "box 2x1.4x1 in its 1.13-padded box", s: m3(sdf.Box3D(v3.Vec{X: 2, Y: 1.4, Z: 1}, 0)), size: 2.26, ns: []int{n}, class: "resolution-sweep", box: v3.Vec{X: 2.26, Y: 1.582, Z: 1.13}})
 	}
 	// long thin parts at a fine resolution (round 8): more than 1024 and more than 2048 cells along one axis, 8 across
 	// (a cell index packed into too few bits per axis), V2 only
@@ -377,6 +383,9 @@ func main() {
 	for _, sh := range shapes {
 		for _, n := range sh.ns {
 			for _, st := range settings {
+				if sh.class == "resolution-sweep" && !strings.HasPrefix(st.name, "V2 default") {
+					continue
+				}
 				if sh.class == "long-rod" && !strings.HasPrefix(st.name, "V2 default") && !strings.HasPrefix(st.name, "V2 FarAway") {
 					continue
 				}
